@@ -1,11 +1,814 @@
+//! C15 — loader single-flight.
+//!
+//! Property text: "For any number of concurrent fetch_with calls, from threads or tasks, that miss on
+//! the same key, the loader runs exactly once per miss; every caller returns that one loaded value,
+//! the value becomes resident with its cost, and no caller waits forever once the loader has
+//! returned. A later miss after invalidation or expiry triggers exactly one new load, and loads of
+//! different keys do not block each other."
+//!
+//! Two engines besides the sequential clauses in seq.rs:
+//!  * E4-loader: waves of real threads (sync and async handles) against gate-controlled loaders.  The
+//!    clauses are timing-free: as long as the key stays resident and unexpired, every caller of a wave —
+//!    whether it arrives before, during or just after the load — must see exactly one loader run.
+//!  * E2-async-loader: `AsyncCache` + async loader + harness `TaskSpawner`; callers, spawned loader
+//!    tasks and the loader's own future are all polled by the history on one thread (poll, cancel,
+//!    open gate, invalidate, clock step), so stuck waiters are decided without a clock.
+
+use crate::env::*;
+use proptest::prelude::*;
 use serde::{Deserialize, Serialize};
+use std::collections::{BTreeMap, BTreeSet};
+use std::future::Future;
+use std::pin::Pin;
+use std::sync::atomic::{AtomicBool, AtomicU64, Ordering};
+use std::sync::{Arc, Condvar, Mutex};
+use std::task::{Context, Poll, Wake, Waker};
+use std::time::{Duration, Instant};
 use vcore::{CaseReport, Check, Failure};
+
+const P: &str = "C15";
+const MS: u64 = 1_000_000;
+
+fn fail(engine: &str, api: &str, clause: &str, msg: String) -> Failure {
+  Failure::new(P, format!("{engine}/loader/{api}/{clause}"), msg)
+}
+
+// =============================================================================================
+// E4: threads
+// =============================================================================================
+
+#[derive(Clone, Copy, Debug, Serialize, Deserialize, PartialEq, Eq)]
+pub enum Latency {
+  Zero,
+  Spin,
+  Gate,
+}
+
+#[derive(Clone, Copy, Debug, Serialize, Deserialize, PartialEq, Eq)]
+pub enum Between {
+  Nothing,
+  Invalidate,
+  /// advance the virtual clock past the TTL (+ grace)
+  Expire,
+  /// advance into the grace window (stale-while-revalidate refresh racing the callers)
+  Stale,
+}
+
 #[derive(Clone, Debug, Serialize, Deserialize)]
-pub struct TScenario {}
+pub struct Wave {
+  /// (key, number of callers, latency)
+  pub groups: Vec<(u32, u8, Latency)>,
+  /// how many of each group's callers use the async handle (block_on on their own thread)
+  pub async_callers: u8,
+  /// what happens to the wave's keys before the wave
+  pub before: Between,
+  /// extra callers started right after the gates were opened ("just after completion")
+  pub late: u8,
+}
+
 #[derive(Clone, Debug, Serialize, Deserialize)]
-pub struct AScenario {}
-pub fn execute_threads(_s: &TScenario) -> Result<CaseReport, Failure> { Ok(CaseReport::new()) }
-pub fn execute_async(_s: &AScenario) -> Result<CaseReport, Failure> { Ok(CaseReport::new()) }
-pub fn check(_c: &mut Check) {}
-pub fn assumptions() -> Vec<String> { vec![] }
-pub fn rule() -> String { String::new() }
+pub struct TScenario {
+  pub shards: usize,
+  pub collide: bool,
+  pub ttl_ms: Option<u64>,
+  pub swr_ms: Option<u64>,
+  pub async_loader: bool,
+  pub cost: u64,
+  pub waves: Vec<Wave>,
+}
+
+struct Gates {
+  /// per key: open?
+  open: Mutex<BTreeMap<u32, bool>>,
+  cv: Condvar,
+  entered: Mutex<Vec<u32>>,
+  returned: Mutex<Vec<u32>>,
+}
+
+impl Gates {
+  fn wait(&self, key: u32) {
+    let mut g = self.open.lock().unwrap();
+    while !g.get(&key).copied().unwrap_or(true) {
+      g = self.cv.wait(g).unwrap();
+    }
+  }
+  fn set(&self, key: u32, open: bool) {
+    self.open.lock().unwrap().insert(key, open);
+    self.cv.notify_all();
+  }
+}
+
+pub fn tscenario_strategy() -> impl Strategy<Value = TScenario> {
+  let lat = prop_oneof![1 => Just(Latency::Zero), 1 => Just(Latency::Spin), 3 => Just(Latency::Gate)];
+  let group = (0u32..4, 2u8..12, lat);
+  let wave = (
+    proptest::collection::vec(group, 1..4),
+    0u8..4,
+    prop_oneof![2 => Just(Between::Nothing), 3 => Just(Between::Invalidate), 2 => Just(Between::Expire), 2 => Just(Between::Stale)],
+    0u8..4,
+  )
+    .prop_map(|(mut groups, async_callers, before, late)| {
+      // one group per key
+      let mut seen = BTreeSet::new();
+      groups.retain(|g| seen.insert(g.0));
+      Wave { groups, async_callers, before, late }
+    });
+  (
+    prop_oneof![Just(1usize), Just(2), Just(8)],
+    any::<bool>(),
+    prop_oneof![Just(None), Just(Some(50u64)), Just(Some(1000))],
+    prop_oneof![Just(None), Just(Some(50u64))],
+    any::<bool>(),
+    prop_oneof![Just(0u64), Just(1), Just(3)],
+    proptest::collection::vec(wave, 1..5),
+  )
+    .prop_map(|(shards, collide, ttl_ms, swr, async_loader, cost, waves)| TScenario { shards, collide, ttl_ms, swr_ms: if ttl_ms.is_some() { swr } else { None }, async_loader, cost, waves })
+}
+
+fn join_all(handles: Vec<(u32, std::thread::JoinHandle<Val>)>, results: &mut Vec<(u32, Val)>, done: &Arc<AtomicU64>, want: u64, secs: u64) -> bool {
+  let deadline = Instant::now() + Duration::from_secs(secs);
+  while done.load(Ordering::SeqCst) < want {
+    if Instant::now() >= deadline {
+      return false;
+    }
+    std::thread::sleep(Duration::from_micros(100));
+  }
+  for (k, h) in handles {
+    match h.join() {
+      Ok(v) => results.push((k, v)),
+      Err(_) => return false,
+    }
+  }
+  true
+}
+
+fn bound_secs() -> u64 {
+  // development aid: VERIF_C15_BOUND_SECS shortens the liveness bound (never set by vf)
+  std::env::var("VERIF_C15_BOUND_SECS").ok().and_then(|s| s.parse().ok()).unwrap_or(30)
+}
+
+pub fn execute_threads(s: &TScenario) -> Result<CaseReport, Failure> {
+  const E: &str = "E4";
+  let clock = case_clock();
+  let next_wid = Arc::new(AtomicU64::new(1));
+  let gates = Arc::new(Gates { open: Default::default(), cv: Default::default(), entered: Default::default(), returned: Default::default() });
+  let st = Arc::new(LoaderState { next_wid: next_wid.clone(), clock: clock.clone(), cost: s.cost, log: Default::default(), cv: Default::default() });
+  let lat: Arc<Mutex<BTreeMap<u32, Latency>>> = Default::default();
+  let mut b: TBuilder = TBuilder::new().hasher(FixedState { collide: s.collide }).shards(s.shards).unbounded().janitor_tick_interval(Duration::from_millis(50)).maintenance_chance(1 << 31);
+  if let Some(t) = s.ttl_ms {
+    b = b.time_to_live(Duration::from_millis(t));
+  }
+  if let Some(t) = s.swr_ms {
+    b = b.stale_while_revalidate(Duration::from_millis(t));
+  }
+  let body = {
+    let (st, gates, lat, clock) = (st.clone(), gates.clone(), lat.clone(), clock.clone());
+    move |k: u32| -> (Val, u64) {
+      fibre_cache::verif::install(Some(clock.clone()));
+      gates.entered.lock().unwrap().push(k);
+      let l = lat.lock().unwrap().get(&k).copied().unwrap_or(Latency::Zero); // (guard released here)
+      match l {
+        Latency::Zero => {}
+        Latency::Spin => {
+          let t = Instant::now();
+          while t.elapsed() < Duration::from_micros(50) {
+            std::hint::spin_loop();
+          }
+        }
+        Latency::Gate => gates.wait(k),
+      }
+      let r = st.load(k);
+      gates.returned.lock().unwrap().push(k);
+      r
+    }
+  };
+  let exec = if s.async_loader {
+    let ex = Exec::start_pool(clock.clone(), 6);
+    let body = body.clone();
+    b = b.async_loader(move |k| {
+      let body = body.clone();
+      async move { body(k) }
+    });
+    b = b.spawner(Arc::new(ExecSpawner(ex.clone())));
+    Some(ex)
+  } else {
+    b = b.loader(body);
+    None
+  };
+  let cache = b.build().expect("cache builds");
+  let mut rep = CaseReport::new();
+  rep.class(if s.async_loader { "threads:async_loader" } else { "threads:sync_loader" });
+  let mut now = T0;
+  // model: key -> (resident wid, ttl deadline)
+  let mut resident: BTreeMap<u32, (u64, Option<u64>)> = BTreeMap::new();
+  let mut costs: BTreeMap<u64, u64> = BTreeMap::new();
+  let mut loads_seen = 0usize;
+  let result = (|| -> Result<(), Failure> {
+    for (wi, w) in s.waves.iter().enumerate() {
+      // ---- between waves ----
+      for (k, _, _) in &w.groups {
+        match w.before {
+          Between::Nothing => {}
+          Between::Invalidate => {
+            cache.invalidate(k);
+            resident.remove(k);
+          }
+          Between::Expire | Between::Stale => {}
+        }
+      }
+      match (w.before, s.ttl_ms) {
+        (Between::Expire, Some(t)) => {
+          now += (t + s.swr_ms.unwrap_or(0) + 1) * MS;
+          clock.store(now, Ordering::SeqCst);
+        }
+        (Between::Stale, Some(t)) if s.swr_ms.is_some() => {
+          // into the grace window of everything loaded at the current time
+          now += t * MS;
+          clock.store(now, Ordering::SeqCst);
+        }
+        _ => {}
+      }
+      // expected state of each key of the wave: Fresh (no load may happen), Stale (exactly one
+      // refresh), Absent (exactly one load)
+      #[derive(PartialEq, Clone, Copy, Debug)]
+      enum St {
+        Fresh,
+        Stale,
+        Absent,
+      }
+      let mut state: BTreeMap<u32, St> = BTreeMap::new();
+      for (k, _, l) in &w.groups {
+        let stt = match resident.get(k) {
+          None => St::Absent,
+          Some((_, None)) => St::Fresh,
+          Some((_, Some(d))) => {
+            if now < *d {
+              St::Fresh
+            } else if s.swr_ms.map_or(false, |g| now < *d + g * MS) {
+              St::Stale
+            } else {
+              St::Absent
+            }
+          }
+        };
+        state.insert(*k, stt);
+        lat.lock().unwrap().insert(*k, *l);
+        gates.set(*k, *l != Latency::Gate);
+      }
+      // ---- the wave ----
+      let done = Arc::new(AtomicU64::new(0));
+      let started = Arc::new(AtomicU64::new(0));
+      let spawn_caller = |k: u32, use_async: bool| {
+        let c = cache.clone();
+        let (clock, done, started) = (clock.clone(), done.clone(), started.clone());
+        std::thread::spawn(move || {
+          fibre_cache::verif::install(Some(clock));
+          started.fetch_add(1, Ordering::SeqCst);
+          let v = if use_async { (*block_on(c.to_async().fetch_with(&k))).clone() } else { (*c.fetch_with(&k)).clone() };
+          done.fetch_add(1, Ordering::SeqCst);
+          v
+        })
+      };
+      let mut gated: Vec<(u32, std::thread::JoinHandle<Val>)> = Vec::new();
+      let mut free: Vec<(u32, std::thread::JoinHandle<Val>)> = Vec::new();
+      let mut total = 0u64;
+      for (k, n, l) in &w.groups {
+        for i in 0..*n {
+          let h = spawn_caller(*k, i < w.async_callers);
+          total += 1;
+          // callers of a key whose load blocks on a closed gate cannot finish (unless they hit)
+          if *l == Latency::Gate && state[k] == St::Absent {
+            gated.push((*k, h));
+          } else {
+            free.push((*k, h));
+          }
+        }
+      }
+      let mut results: Vec<(u32, Val)> = Vec::new();
+      // C15: "loads of different keys do not block each other": callers of keys whose loader does not
+      // wait for a gate (and stale/fresh hits) finish while the other keys' gates are still closed.
+      // The harness holds the only thing that blocks (the gates), so a caller that is still not back
+      // after 30 s waits for another key's load.
+      let free_n = free.len() as u64;
+      {
+        let deadline = Instant::now() + Duration::from_secs(bound_secs());
+        while done.load(Ordering::SeqCst) < free_n {
+          if Instant::now() >= deadline {
+            for (k, _, _) in &w.groups {
+              gates.set(*k, true);
+            }
+            return Err(fail(E, "fetch_with", "different_keys_blocked", format!("wave {wi}: only {} of {free_n} callers of ungated keys returned while other keys' loaders were blocked on their gates", done.load(Ordering::SeqCst))));
+          }
+          std::thread::sleep(Duration::from_micros(100));
+        }
+      }
+      if !gated.is_empty() && free_n > 0 {
+        rep.class("threads:ungated_key_finished_while_gate_closed");
+      }
+      // let every gated caller get going, then open the gates
+      let t = Instant::now();
+      while started.load(Ordering::SeqCst) < total && t.elapsed() < Duration::from_secs(5) {
+        std::thread::yield_now();
+      }
+      std::thread::sleep(Duration::from_micros(200));
+      for (k, _, _) in &w.groups {
+        gates.set(*k, true);
+      }
+      // late arrivals: "callers arriving ... just after completion of a load"
+      for (k, _, _) in &w.groups {
+        for _ in 0..w.late {
+          free.push((*k, spawn_caller(*k, false)));
+          total += 1;
+        }
+      }
+      // C15: "no caller waits forever once the loader has returned"
+      let all: Vec<(u32, std::thread::JoinHandle<Val>)> = gated.into_iter().chain(free.into_iter()).collect();
+      if !join_all(all, &mut results, &done, total, bound_secs()) {
+        let entered = gates.entered.lock().unwrap().len();
+        let returned = gates.returned.lock().unwrap().len();
+        if entered == returned {
+          return Err(fail(E, "fetch_with", "caller_stuck_after_loader_returned", format!("wave {wi}: {} of {total} callers returned 30 s after every gate was opened; all {entered} loader invocations had returned", done.load(Ordering::SeqCst))));
+        }
+        return Err(Failure::new("C15", "E4/loader/inconclusive", "loader still running after 30 s"));
+      }
+      if let Some(ex) = &exec {
+        ex.wait_idle(Duration::from_secs(20));
+      }
+      // a stale refresh of a sync loader runs on a thread nobody joins: wait for entered == returned
+      let t = Instant::now();
+      while gates.entered.lock().unwrap().len() != gates.returned.lock().unwrap().len() && t.elapsed() < Duration::from_secs(10) {
+        std::thread::sleep(Duration::from_micros(100));
+      }
+      std::thread::sleep(Duration::from_micros(300));
+      let loads: Vec<LoadRec> = {
+        let g = st.log.lock().unwrap();
+        let v = g[loads_seen..].to_vec();
+        loads_seen = g.len();
+        v
+      };
+      for l in &loads {
+        costs.insert(l.wid, l.cost);
+      }
+      for (k, n, _) in &w.groups {
+        let kl: Vec<&LoadRec> = loads.iter().filter(|l| l.key == *k).collect();
+        let vals: Vec<&Val> = results.iter().filter(|(rk, _)| rk == k).map(|(_, v)| v).collect();
+        let callers = *n as usize + w.late as usize;
+        if callers >= 2 {
+          rep.nontrivial = true;
+        }
+        match state[k] {
+          St::Absent => {
+            // C15: "the loader runs exactly once per miss" / "A later miss after invalidation or
+            // expiry triggers exactly one new load"
+            if kl.len() != 1 {
+              return Err(fail(E, "fetch_with", "loads_per_miss_not_one", format!("wave {wi} key {k}: {callers} concurrent callers missed, the loader ran {} times", kl.len())));
+            }
+            // C15: "every caller returns that one loaded value"
+            if let Some(v) = vals.iter().find(|v| v.wid != kl[0].wid || v.key != *k) {
+              return Err(fail(E, "fetch_with", "caller_got_other_value", format!("wave {wi} key {k}: loaded write {}, a caller returned {v:?}", kl[0].wid)));
+            }
+            resident.insert(*k, (kl[0].wid, s.ttl_ms.map(|t| kl[0].at + t * MS)));
+            rep.class("threads:wave_miss");
+          }
+          St::Fresh => {
+            if !kl.is_empty() {
+              return Err(fail(E, "fetch_with", "load_without_miss", format!("wave {wi} key {k}: resident and fresh, yet the loader ran {} times", kl.len())));
+            }
+            let cur = resident[k].0;
+            if let Some(v) = vals.iter().find(|v| v.wid != cur) {
+              return Err(fail(E, "fetch_with", "caller_got_other_value", format!("wave {wi} key {k}: resident write {cur}, a caller returned {v:?}")));
+            }
+          }
+          St::Stale => {
+            // "stale-while-revalidate refreshes racing with misses": one refresh, callers see the
+            // stale or the refreshed value
+            if kl.len() != 1 {
+              return Err(fail(E, "fetch_with", "refreshes_per_stale_entry_not_one", format!("wave {wi} key {k}: {callers} callers hit a stale entry inside its grace window, the loader ran {} times", kl.len())));
+            }
+            let cur = resident[k].0;
+            if let Some(v) = vals.iter().find(|v| v.wid != cur && v.wid != kl[0].wid) {
+              return Err(fail(E, "fetch_with", "caller_got_other_value", format!("wave {wi} key {k}: stale write {cur}, refreshed write {}, a caller returned {v:?}", kl[0].wid)));
+            }
+            resident.insert(*k, (kl[0].wid, s.ttl_ms.map(|t| kl[0].at + t * MS)));
+            rep.class("threads:wave_stale_refresh");
+          }
+        }
+        // C15: "the value becomes resident with its cost"
+        let (wid, d) = resident[k];
+        let fresh = d.map_or(true, |d| now < d);
+        if fresh {
+          match cache.peek(k) {
+            Some(v) if v.wid == wid => {}
+            other => return Err(fail(E, "fetch_with", "loaded_value_not_resident", format!("wave {wi} key {k}: write {wid} was loaded, peek returns {other:?}"))),
+          }
+        }
+      }
+    }
+    // cost: the resident entries are exactly the last loads; current_cost must say so
+    let cost_of = |v: &Val| costs.get(&v.wid).copied();
+    let expired: Vec<u32> = resident.iter().filter(|(_, (_, d))| d.map_or(false, |d| now >= d)).map(|(k, _)| *k).collect();
+    let mut purge = |c: &TCache| {
+      for k in &expired {
+        c.remove(k);
+      }
+    };
+    match quiesce_check(&cache, None, &cost_of, &mut purge) {
+      Ok(_) | Err(QuiesceErr::Inconclusive(_)) => Ok(()),
+      Err(QuiesceErr::Violation(clause, msg)) => Err(fail(E, "fetch_with", &format!("resident_cost_{clause}"), msg)),
+    }
+  })();
+  // never leave a loader thread blocked
+  for k in 0..8 {
+    gates.set(k, true);
+  }
+  if let Some(ex) = &exec {
+    ex.wait_idle(Duration::from_secs(5));
+    ex.stop();
+  }
+  match result {
+    Err(f) if f.signature == "E4/loader/inconclusive" => {
+      rep.inconclusive = 1;
+      Ok(rep)
+    }
+    Err(f) => Err(f),
+    Ok(()) => Ok(rep),
+  }
+}
+
+// =============================================================================================
+// E2: async callers, spawned loader tasks and loader futures on a harness-owned executor
+// =============================================================================================
+
+#[derive(Clone, Debug, Serialize, Deserialize)]
+pub enum AStep {
+  /// create a caller future `fetch_with(k)` (not polled yet)
+  Call { k: u8 },
+  PollCaller { i: u16 },
+  PollTask { i: u16 },
+  Open { k: u8 },
+  Close { k: u8 },
+  /// cancel a caller
+  Drop { i: u16 },
+  Invalidate { k: u8 },
+  Advance { ms: u16 },
+  /// poll woken callers/tasks until nothing is woken
+  Settle,
+}
+
+#[derive(Clone, Debug, Serialize, Deserialize)]
+pub struct AScenario {
+  pub shards: usize,
+  pub collide: bool,
+  pub ttl_ms: Option<u64>,
+  pub steps: Vec<AStep>,
+}
+
+pub fn ascenario_strategy() -> impl Strategy<Value = AScenario> {
+  let step = prop_oneof![
+    6 => (0u8..3).prop_map(|k| AStep::Call { k }),
+    6 => any::<u16>().prop_map(|i| AStep::PollCaller { i }),
+    4 => any::<u16>().prop_map(|i| AStep::PollTask { i }),
+    3 => (0u8..3).prop_map(|k| AStep::Open { k }),
+    1 => (0u8..3).prop_map(|k| AStep::Close { k }),
+    2 => any::<u16>().prop_map(|i| AStep::Drop { i }),
+    2 => (0u8..3).prop_map(|k| AStep::Invalidate { k }),
+    1 => prop_oneof![Just(1u16), Just(49), Just(50), Just(51)].prop_map(|ms| AStep::Advance { ms }),
+    3 => Just(AStep::Settle),
+  ];
+  (prop_oneof![Just(1usize), Just(2), Just(8)], any::<bool>(), prop_oneof![2 => Just(None), 1 => Just(Some(50u64))], proptest::collection::vec(step, 0..60))
+    .prop_map(|(shards, collide, ttl_ms, steps)| AScenario { shards, collide, ttl_ms, steps })
+}
+
+struct Flag(AtomicBool);
+impl Wake for Flag {
+  fn wake(self: Arc<Self>) {
+    self.0.store(true, Ordering::SeqCst);
+  }
+  fn wake_by_ref(self: &Arc<Self>) {
+    self.0.store(true, Ordering::SeqCst);
+  }
+}
+
+struct AShared {
+  open: Mutex<[bool; 3]>,
+  gate_wakers: Mutex<Vec<(u8, Waker)>>,
+  /// loader invocations that entered and have not completed, per key
+  inflight: Mutex<[u32; 3]>,
+  entered_log: Mutex<Vec<u32>>,
+  spawned: Mutex<Vec<Pin<Box<dyn Future<Output = ()> + Send>>>>,
+}
+
+struct GateFut {
+  sh: Arc<AShared>,
+  k: u8,
+}
+impl Future for GateFut {
+  type Output = ();
+  fn poll(self: Pin<&mut Self>, cx: &mut Context<'_>) -> Poll<()> {
+    if self.sh.open.lock().unwrap()[self.k as usize] {
+      Poll::Ready(())
+    } else {
+      self.sh.gate_wakers.lock().unwrap().push((self.k, cx.waker().clone()));
+      Poll::Pending
+    }
+  }
+}
+
+struct QueueSpawner(Arc<AShared>);
+impl fibre_cache::TaskSpawner for QueueSpawner {
+  fn spawn(&self, future: Pin<Box<dyn Future<Output = ()> + Send>>) {
+    self.0.spawned.lock().unwrap().push(future);
+  }
+}
+
+struct Slot<F> {
+  fut: Option<F>,
+  flag: Arc<Flag>,
+  polled: bool,
+  key: u8,
+  created_step: usize,
+  result: Option<Val>,
+}
+
+pub fn execute_async(s: &AScenario) -> Result<CaseReport, Failure> {
+  const E: &str = "E2";
+  let clock = case_clock();
+  let next_wid = Arc::new(AtomicU64::new(1));
+  let st = Arc::new(LoaderState { next_wid, clock: clock.clone(), cost: 1, log: Default::default(), cv: Default::default() });
+  let sh = Arc::new(AShared { open: Mutex::new([false; 3]), gate_wakers: Default::default(), inflight: Mutex::new([0; 3]), entered_log: Default::default(), spawned: Default::default() });
+  let mut b: TBuilder = TBuilder::new().hasher(FixedState { collide: s.collide }).shards(s.shards).unbounded().janitor_tick_interval(Duration::from_millis(50)).maintenance_chance(1 << 31);
+  if let Some(t) = s.ttl_ms {
+    b = b.time_to_live(Duration::from_millis(t));
+  }
+  {
+    let (st, sh) = (st.clone(), sh.clone());
+    b = b.async_loader(move |k: u32| {
+      let (st, sh) = (st.clone(), sh.clone());
+      async move {
+        sh.inflight.lock().unwrap()[k as usize] += 1;
+        sh.entered_log.lock().unwrap().push(k);
+        GateFut { sh: sh.clone(), k: k as u8 }.await;
+        let r = st.load(k);
+        sh.inflight.lock().unwrap()[k as usize] -= 1;
+        r
+      }
+    });
+  }
+  b = b.spawner(Arc::new(QueueSpawner(sh.clone())));
+  let ac: TAsync = b.build_async().expect("cache builds");
+  // callers borrow the handle: keep it boxed and alive until every future is gone
+  let acb: &'static TAsync = Box::leak(Box::new(ac));
+  type CallerFut = Pin<Box<dyn Future<Output = Arc<Val>>>>;
+  let mut callers: Vec<Slot<CallerFut>> = Vec::new();
+  let mut tasks: Vec<Slot<Pin<Box<dyn Future<Output = ()> + Send>>>> = Vec::new();
+  let mut rep = CaseReport::new();
+  let mut now = T0;
+  // model: completed loads per key in order: (wid, completed at step, dead since step)
+  let mut loads: [Vec<(u64, usize, Option<usize>, u64)>; 3] = Default::default();
+  let mut loads_seen = 0usize;
+  let mut entered_seen = 0usize;
+  let mut max_waiting = 0usize;
+  let mut cancelled = false;
+
+  let result = (|| -> Result<(), Failure> {
+    macro_rules! absorb {
+      ($step:expr) => {{
+        // adopt tasks the cache spawned
+        for f in sh.spawned.lock().unwrap().drain(..) {
+          tasks.push(Slot { fut: Some(f), flag: Arc::new(Flag(AtomicBool::new(true))), polled: false, key: 0, created_step: $step, result: None });
+        }
+        // loader entries: C15 "the loader runs exactly once per miss" — a load may only start while no
+        // other load of that key is in flight and the key is not resident and fresh
+        let entered: Vec<u32> = {
+          let g = sh.entered_log.lock().unwrap();
+          let v = g[entered_seen..].to_vec();
+          entered_seen = g.len();
+          v
+        };
+        for k in entered {
+          let ku = k as usize;
+          if sh.inflight.lock().unwrap()[ku] > 1 {
+            return Err(fail(E, "fetch_with", "concurrent_loads_of_one_key", format!("step {}: a second loader invocation for key {k} started while one was still running", $step)));
+          }
+          if let Some((wid, _, None, at)) = loads[ku].last().copied() {
+            if s.ttl_ms.map_or(true, |t| now < at + t * MS) {
+              return Err(fail(E, "fetch_with", "load_without_miss", format!("step {}: key {k} is resident (write {wid}) and fresh, yet the loader was invoked again", $step)));
+            }
+          }
+        }
+        let done: Vec<LoadRec> = {
+          let g = st.log.lock().unwrap();
+          let v = g[loads_seen..].to_vec();
+          loads_seen = g.len();
+          v
+        };
+        for l in done {
+          let ku = l.key as usize;
+          // a completed load supersedes the previous value of the key
+          if let Some(last) = loads[ku].last_mut() {
+            if last.2.is_none() {
+              last.2 = Some($step);
+            }
+          }
+          loads[ku].push((l.wid, $step, None, l.at));
+        }
+      }};
+    }
+    macro_rules! poll_caller {
+      ($i:expr, $step:expr) => {{
+        let i: usize = $i;
+        if callers[i].fut.is_some() {
+          callers[i].flag.0.store(false, Ordering::SeqCst);
+          callers[i].polled = true;
+          let w = Waker::from(callers[i].flag.clone());
+          let mut cx = Context::from_waker(&w);
+          let r = callers[i].fut.as_mut().unwrap().as_mut().poll(&mut cx);
+          absorb!($step);
+          if let Poll::Ready(v) = r {
+            callers[i].fut = None;
+            let v = (*v).clone();
+            let k = callers[i].key as usize;
+            // C15: "every caller returns that one loaded value": a value some load of this key
+            // produced, and not one that was already invalidated/superseded when the caller was created
+            match loads[k].iter().find(|l| l.0 == v.wid) {
+              None => return Err(fail(E, "fetch_with", "caller_got_unknown_value", format!("step {}: caller {i} of key {k} returned {v:?}, which no completed load of that key produced", $step))),
+              Some((_, _, Some(dead), _)) if *dead < callers[i].created_step => {
+                return Err(fail(E, "fetch_with", "caller_got_dead_value", format!("step {}: caller {i} of key {k} (created at step {}) returned write {} which was invalidated/replaced at step {dead}", $step, callers[i].created_step, v.wid)))
+              }
+              _ => {}
+            }
+            callers[i].result = Some(v);
+          }
+        }
+      }};
+    }
+    macro_rules! poll_task {
+      ($i:expr, $step:expr) => {{
+        let i: usize = $i;
+        if tasks[i].fut.is_some() {
+          tasks[i].flag.0.store(false, Ordering::SeqCst);
+          tasks[i].polled = true;
+          let w = Waker::from(tasks[i].flag.clone());
+          let mut cx = Context::from_waker(&w);
+          let r = tasks[i].fut.as_mut().unwrap().as_mut().poll(&mut cx);
+          absorb!($step);
+          if r.is_ready() {
+            tasks[i].fut = None;
+          }
+        }
+      }};
+    }
+    for (si, step) in s.steps.iter().enumerate() {
+      match step {
+        AStep::Call { k } => {
+          let key = *k as u32;
+          let fut: CallerFut = Box::pin(async move { acb.fetch_with(&key).await });
+          callers.push(Slot { fut: Some(fut), flag: Arc::new(Flag(AtomicBool::new(true))), polled: false, key: *k, created_step: si, result: None });
+        }
+        AStep::PollCaller { i } => {
+          if !callers.is_empty() {
+            let i = vcore::idx(*i, callers.len());
+            poll_caller!(i, si);
+          }
+        }
+        AStep::PollTask { i } => {
+          if !tasks.is_empty() {
+            let i = vcore::idx(*i, tasks.len());
+            poll_task!(i, si);
+          }
+        }
+        AStep::Open { k } => {
+          sh.open.lock().unwrap()[*k as usize] = true;
+          let ws: Vec<(u8, Waker)> = std::mem::take(&mut *sh.gate_wakers.lock().unwrap());
+          for (wk, w) in ws {
+            if wk == *k {
+              w.wake();
+            } else {
+              sh.gate_wakers.lock().unwrap().push((wk, w));
+            }
+          }
+        }
+        AStep::Close { k } => sh.open.lock().unwrap()[*k as usize] = false,
+        AStep::Drop { i } => {
+          if !callers.is_empty() {
+            let i = vcore::idx(*i, callers.len());
+            if callers[i].fut.take().is_some() && callers[i].polled {
+              cancelled = true;
+            }
+          }
+        }
+        AStep::Invalidate { k } => {
+          let key = *k as u32;
+          let _ = block_on(acb.invalidate(&key));
+          if let Some(last) = loads[*k as usize].last_mut() {
+            if last.2.is_none() {
+              last.2 = Some(si);
+            }
+          }
+        }
+        AStep::Advance { ms } => {
+          now += *ms as u64 * MS;
+          clock.store(now, Ordering::SeqCst);
+          if let Some(t) = s.ttl_ms {
+            for l in loads.iter_mut() {
+              if let Some(last) = l.last_mut() {
+                if last.2.is_none() && now >= last.3 + t * MS {
+                  last.2 = Some(si);
+                }
+              }
+            }
+          }
+        }
+        AStep::Settle => {
+          // an executor that polls exactly the woken tasks, until none is woken
+          let mut rounds = 0;
+          loop {
+            let mut any = false;
+            for i in 0..tasks.len() {
+              if tasks[i].fut.is_some() && tasks[i].flag.0.load(Ordering::SeqCst) {
+                any = true;
+                poll_task!(i, si);
+              }
+            }
+            for i in 0..callers.len() {
+              if callers[i].fut.is_some() && callers[i].polled && callers[i].flag.0.load(Ordering::SeqCst) {
+                any = true;
+                poll_caller!(i, si);
+              }
+            }
+            rounds += 1;
+            if !any || rounds > 10_000 {
+              break;
+            }
+          }
+          let open = *sh.open.lock().unwrap();
+          let inflight = *sh.inflight.lock().unwrap();
+          let waiting = callers.iter().filter(|c| c.fut.is_some() && c.polled).count();
+          max_waiting = max_waiting.max(waiting);
+          for k in 0..3usize {
+            // C15: "loads of different keys do not block each other": with its gate open a key's load
+            // cannot depend on anything but the executor; after settling it must be finished
+            let pending_tasks = tasks.iter().filter(|t| t.fut.is_some()).count();
+            if open[k] && inflight[k] > 0 {
+              return Err(fail(E, "fetch_with", "load_stalled_with_open_gate", format!("step {si}: key {k}'s gate is open and every woken task was polled, yet its load is still in flight ({pending_tasks} spawned tasks pending; closed gates: {:?})", open)));
+            }
+            // C15: "no caller waits forever once the loader has returned": no load of this key is
+            // running or queued, so a started caller that is still pending has nobody left to wake it
+            let queued = tasks.iter().any(|t| t.fut.is_some());
+            if inflight[k] == 0 && !queued {
+              if let Some((i, _)) = callers.iter().enumerate().find(|(_, c)| c.key as usize == k && c.fut.is_some() && c.polled) {
+                return Err(fail(E, "fetch_with", "caller_stuck_after_load_completed", format!("step {si}: caller {i} of key {k} is pending and unwoken although no load of that key is running or queued")));
+              }
+            }
+          }
+        }
+      }
+      absorb!(si);
+    }
+    Ok(())
+  })();
+  // teardown: futures first, then the leaked handle
+  callers.clear();
+  tasks.clear();
+  sh.spawned.lock().unwrap().clear();
+  sh.gate_wakers.lock().unwrap().clear();
+  unsafe {
+    drop(Box::from_raw(acb as *const TAsync as *mut TAsync));
+  }
+  result?;
+  // NT: ">= 2 callers overlapped one load"
+  rep.nontrivial = max_waiting >= 2;
+  if cancelled {
+    rep.class("async:cancelled_waiting_caller");
+  }
+  if max_waiting >= 2 {
+    rep.class("async:overlapping_callers");
+  }
+  Ok(rep)
+}
+
+// =============================================================================================
+
+pub fn check(check: &mut Check) {
+  let ctx = check.ctx.clone();
+  let n_threads = ctx.tier.pick(600u64, 20_000u64);
+  let out = vcore::drive(&ctx, &check.findings, 3, n_threads, tscenario_strategy, |s| execute_threads(s));
+  check.absorb(crate::ENGINE_LOADER, out);
+  let n_async = ctx.tier.pick(30_000u64, 2_000_000u64);
+  let out = vcore::drive(&ctx, &check.findings, 4, n_async, ascenario_strategy, |s| execute_async(s));
+  check.absorb(crate::ENGINE_ALOADER, out);
+  check.require_class("threads:wave_miss", 100);
+  check.require_class("async:overlapping_callers", 500);
+}
+
+pub fn assumptions() -> Vec<String> {
+  vec![
+    "E4 waves: unbounded cache, so a loaded key stays resident; the per-wave clauses then hold for every arrival order (before / during / just after the load), no timing is asserted".into(),
+    "E4: 'different keys do not block' and 'no caller waits forever' are decided with a 30 s bound in a construction where the harness gates are the only blocking objects and all of them are open; a loader that has not returned by then is reported inconclusive (exit 2)".into(),
+    "E2: single harness thread, every poll/wake is part of the generated history; the late-arrival window between map insert and pending-marker removal is not split (no delay point inside spawn_loader_task)".into(),
+  ]
+}
+
+pub fn rule() -> String {
+  "E1: sequential histories with fetch_with / invalidate / clock steps (see C11 rule); E4: generated waves of 2..12 threads per key (sync and async handles) against Zero/Spin/Gate loaders, keys colliding or not on the pending-load stripes, invalidation / expiry / stale-grace between waves; E2: generated poll/cancel/gate/invalidate/clock histories on a harness executor. Non-trivial = at least 2 callers overlapped one load (E4: a group of >= 2 callers; E2: >= 2 started callers pending at a Settle), or (E1) a key was loaded again after invalidation/expiry; distinct = hash of the scenario".into()
+}
